@@ -1,9 +1,34 @@
 """C18 - SimulationScreen is a faithful test double."""
+from lib import vlib
+
+
+def model_and_replay(ctx, mops, gops, every):
+    """M: SimModel (Show/Sync/draw/SetSize/cursor/event queue transcribed over the CellBuf implementation operators);
+    G: the history of every transition into Show / Sync / Drain replayed on a real SimulationScreen, validated by SimTrace."""
+    c = dict(W=3, H=1, MaxOps=mops, InvalidateOnSetSize="TRUE", GEN="FALSE")
+    ctx.model("SimModel", constants=c, timeout=1800)
+    g = ctx.tlc("SimModel", workers=16, timeout=1800, constants=dict(c, MaxOps=gops, GEN="TRUE"))
+    if not g["ok"]:
+        raise vlib.MachineryError("behaviour generation failed (SimModel)")
+    beh = ctx.work + "/sim_beh.ndjson"
+    if ctx.behaviours(g, beh) == 0:
+        raise vlib.MachineryError("SimModel generated no behaviours")
+    tf = ctx.work + "/trace_beh.ndjson"
+    s, _ = ctx.run_vh(["sim", "--behaviours", beh, "--behevery", every, "--random", 0, "--seed", ctx.seed, "--out", tf], timeout=3000)
+    r = ctx.validate_parallel("SimTrace", tf, parts=12, expect_events=s.get("events"), timeout=3400)
+    ctx.add_violations([d for d in r["devs"] if d["tag"].startswith("C18.")], tf)
+    # the simulator as it was found (cells lost by SetSize never repainted) is refuted by the model
+    bad = ctx.tlc("SimModel", workers=8, timeout=600, constants=dict(c, MaxOps=4, InvalidateOnSetSize="FALSE"))
+    ctx.cov["model_of_original_code_refuted"] = "is violated" in bad["out"]
+    if "is violated" not in bad["out"]:
+        raise vlib.MachineryError("SimModel no longer refutes InvalidateOnSetSize=FALSE")
+    ctx.cov["behaviours_replayed"] = s["histories"]
 
 
 def run(ctx):
     q = ctx.tier == "quick"
     ctx.build_harness()
+    model_and_replay(ctx, 5 if q else 6, 4 if q else 5, 4 if q else 1)
     tf = ctx.work + "/trace.ndjson"
     s, _ = ctx.run_vh(["sim", "--random", 8 if q else 150, "--ops", 30, "--seed", ctx.seed, "--out", tf], timeout=3000)
     r = ctx.validate_parallel("SimTrace", tf, parts=12 if q else 16, expect_events=s.get("events"), timeout=3400)
@@ -13,7 +38,11 @@ def run(ctx):
     ctx.samples.extend(s.get("samples", []))
     ctx.assumptions += ["the encoding of each rune comes from an independent x/text encoder instance of the charset",
                         "cells to the right of a wide rune are unconstrained; fallbacks are generated for primary runes only"]
-    ctx.finish("exploration",
-               rule="seeded random histories (drawing calls, SetStyle, fallback registration, ShowCursor, SetSize, Show/Sync, "
+    ctx.finish("model_checking",
+               rule="M: SimModel (Show/Sync/draw/drawCell/resize/SetSize/cursor/event queue of simulation.go transcribed over the "
+                    "CellBuf implementation operators): FrontOK, KeepsOverlap, CursorOK, ResizeOnce, KeysInOrder over every call "
+                    "sequence up to the bound on a 3x1 screen with narrow, wide and zero-width runes; G: the history of every "
+                    "transition into Show/Sync/Drain replayed on a real SimulationScreen (UTF-8 and EUC-JP); V: these and "
+                    "seeded random histories (drawing calls, SetStyle, fallback registration, ShowCursor, SetSize, Show/Sync, "
                     "InjectKey/InjectMouse/InjectKeyBytes with text of the charset) on a SimulationScreen of each of the 24 "
                     "stateless charsets; GetContents/GetCursor/PollEvent are compared with the logical screen by SimTrace.tla")
